@@ -196,7 +196,7 @@ func c01Persistent(pkg string, d wkbDest, prefix bool) *c01Scanner {
 func c01Event(c *ctx, g orb.Geometry, pkg string, le bool, srid int, psrid int, allDests bool) {
 	in := newWkbIntern()
 	gm, _ := encGeom(g, in.fn())
-	e := map[string]interface{}{"k": "wkb", "pkg": pkg, "srid": srid, "psrid": psrid, "g": gm, "topnil": 0}
+	e := map[string]interface{}{"k": "wkb", "pkg": pkg, "srid": srid, "psrid": psrid, "g": gm, "topnil": 0, "cross": 1}
 	if g != nil && isNilSlice(g) {
 		e["topnil"] = 1 // a typed nil slice at the top level is a nil geometry for the encoder
 	}
@@ -263,6 +263,24 @@ func c01Event(c *ctx, g orb.Geometry, pkg string, le bool, srid int, psrid int, 
 			val, _ = v.([]byte)
 			v, _ = ewkb.ValuePrefixSRID(g, psrid).Value()
 			valp, _ = v.([]byte)
+			// the wkb package reads EWKB too (the SRID is ignored, as its readme says): its three decode paths return the
+			// same geometry for these bytes
+			{
+				wv, werr := wkb.Unmarshal(append([]byte{}, data...))
+				sv, serr := wkb.NewDecoder(c01Reader(c.rng, data)).Decode()
+				sc := wkb.Scanner(nil)
+				cerr := sc.Scan(append([]byte{}, data...))
+				hx := wkb.Scanner(nil)
+				herr := hx.Scan([]byte(hex.EncodeToString(data)))
+				for _, r := range []struct {
+					g   orb.Geometry
+					err error
+				}{{wv, werr}, {sv, serr}, {sc.Geometry, cerr}, {hx.Geometry, herr}} {
+					if r.err != nil || geomBits(r.g) != geomBits(decb) {
+						e["cross"] = 0
+					}
+				}
+			}
 			// what ValuePrefixSRID wrote is what ScannerPrefixSRID reads: same SRID, same geometry
 			ps := ewkb.ScannerPrefixSRID(nil)
 			if err := ps.Scan(append([]byte{}, valp...)); err != nil || !(orb.Equal(ps.Geometry, decb) || hasNaN(decb)) {
@@ -740,8 +758,14 @@ func init() {
 			srid := 0
 			if c.rng.Intn(3) > 0 {
 				srid = 1 + c.rng.Intn(1<<31-1)
+				if c.rng.Intn(4) == 0 { // SRIDs whose bytes look like something else: a byte order mark and a type word, hex digits
+					srid = []int{1 << 24, 2 << 24, 3 << 24, 5 << 24, 7 << 24, 1, 256, 1 << 16, 0x01000001, 0x3030, 0x3130, 0x785c, 0x30303030}[c.rng.Intn(13)]
+				}
 			}
 			psrid := 1 + c.rng.Intn(1<<31-1)
+			if c.rng.Intn(6) == 0 { // prefix SRIDs whose first bytes spell hex digits, the \x marker or a byte order mark
+				psrid = []int{0x3030, 0x3130, 0x785c, 0x30303030, 0x10003030, 0x7fff3130, 0x0001785c, 1, 256, 0x01000000}[c.rng.Intn(10)]
+			}
 			if c.rng.Intn(2) == 0 {
 				c01Event(c, g, "wkb", le, 0, psrid, maxPts <= 6)
 			} else {
